@@ -5,7 +5,7 @@ Float steps are under model E (one IEEE rounding per operation, half-ulp bounds 
 import z3
 
 from pyvc.contracts import contract
-from pyvc.core import Opaque, to_z3, to_real
+from pyvc.core import Opaque, rv, to_z3, to_real
 from pyvc.models_time import mk_dt
 
 # |m| <= 2^33 * 1000 ms covers 1900-01-01 .. 2200-01-01 (-2.21e12 .. 7.26e12 ms)
@@ -224,3 +224,55 @@ class StrptimeToEpoch:
         if time_string not in toks:
             toks[time_string] = INSTANT_MS(len(toks))
         return toks[time_string]
+
+
+# ---------------------------------------------------------------------------------------------------
+# decimal_year (C15): year + elapsed fraction of the (leap-aware) year
+# ---------------------------------------------------------------------------------------------------
+def _leap_year(y):
+    return z3.And(y % 4 == 0, z3.Or(y % 100 != 0, y % 400 == 0))
+
+
+def decimal_year_case(month):
+    class DY:
+        qualname = 'csep.utils.time_utils.decimal_year'
+        case = 'civil date-time record, month=%d' % month
+        properties = ('C15',)
+        oracle = 'decimal_year_civil'
+
+        def witness(m, p):
+            from pyvc.driver import model_value
+            d = p['test_date']
+            return {k: model_value(m, d.fields[k]) for k in ('year', 'month', 'day', 'hour', 'minute', 'second', 'microsecond')}
+
+        def params(c):
+            y, d, h, mi, s, us = (c.int(k) for k in ('year', 'day', 'hour', 'minute', 'second', 'microsecond'))
+            return dict(test_date=c.obj(None, year=y, month=month, day=d, hour=h, minute=mi, second=s, microsecond=us))
+
+        def requires(c, test_date):
+            f = test_date.fields
+            y, d = f['year'], f['day']
+            dim = [31, z3.If(_leap_year(y), 29, 28), 31, 30, 31, 30, 31, 31, 30, 31, 30, 31][month - 1]
+            return [y >= 1, y <= 9999, d >= 1, d <= dim, f['hour'] >= 0, f['hour'] <= 23, f['minute'] >= 0, f['minute'] <= 59,
+                    f['second'] >= 0, f['second'] <= 59, f['microsecond'] >= 0, f['microsecond'] <= 999999]
+
+        def ensures(c, r, test_date):
+            f = test_date.fields
+            y = f['year']
+            leap = _leap_year(y)
+            before = sum([31, 28, 31, 30, 31, 30, 31, 31, 30, 31, 30, 31][:month - 1])
+            doy = z3.IntVal(before) + (z3.If(leap, 1, 0) if month > 2 else 0) + f['day'] - 1
+            ndays = z3.If(leap, 366, 365)
+            # the code multiplies the microseconds by the double 1e-6 (not exactly 10^-6): the same constant is used here
+            secs = z3.ToReal(f['hour'] * 3600 + f['minute'] * 60 + f['second']) + z3.ToReal(f['microsecond']) * rv(1e-6)
+            elapsed = z3.ToReal(doy) * 86400 + secs
+            yield 'decimal year == year + elapsed seconds of the year / seconds of the (leap-aware, Gregorian) year', \
+                (to_real(r) - z3.ToReal(y)) * z3.ToReal(ndays) * 86400 == elapsed
+            yield 'inside the year', z3.And(to_real(r) >= z3.ToReal(y), to_real(r) < z3.ToReal(y) + 1)
+    DY.__name__ = 'DecimalYear_%02d' % month
+    return DY
+
+
+from pyvc.contracts import REG as _REG_T
+for _m in range(1, 13):
+    _REG_T.add(decimal_year_case(_m))
